@@ -10,182 +10,7 @@ use varlink::verif::Point as P;
 
 // ================================================================================== C14
 
-const ARRIVE: usize = 1000;
-const FINISH: usize = 2000;
-const SHUTDOWN: usize = 3000;
-
-#[derive(Default, Debug)]
-struct Obs14 {
-    in_service: usize,
-    max_in_service: usize,
-    submitted: usize,
-    started: Vec<usize>,
-    finished: Vec<usize>,
-    shutdown_done: bool,
-}
-
-struct World14 {
-    initial: usize,
-    max: usize,
-    nconn: usize,
-    /// this job's handler panics when the environment ends it (None: nobody panics)
-    crash: Option<usize>,
-    obs: Arc<Mutex<Obs14>>,
-    shutdown_sent: bool,
-}
-
-impl World for World14 {
-    fn env_enabled(&self, st: &St) -> Vec<EnvAct> {
-        let mut v = vec![];
-        for t in &st.threads {
-            if t.exited {
-                continue;
-            }
-            if let Some(Op::EnvWait(k)) = &t.pending {
-                if *k >= ARRIVE && *k < FINISH {
-                    v.push(EnvAct { label: format!("arrive{}", k - ARRIVE), id: *k });
-                }
-            }
-        }
-        let mut fin: Vec<usize> = st.threads.iter().filter(|t| !t.exited).filter_map(|t| match &t.pending {
-            Some(Op::EnvWait(k)) if *k >= FINISH && *k < SHUTDOWN => Some(*k),
-            _ => None,
-        }).collect();
-        fin.sort();
-        for k in fin {
-            v.push(EnvAct { label: format!("finish{}", k - FINISH), id: k });
-        }
-        for t in &st.threads {
-            if !t.exited && t.pending == Some(Op::EnvWait(SHUTDOWN)) {
-                v.push(EnvAct { label: "shutdown".into(), id: SHUTDOWN });
-            }
-        }
-        v
-    }
-    fn do_env(&mut self, st: &mut St, act: &EnvAct) -> Option<usize> {
-        if act.id == SHUTDOWN {
-            self.shutdown_sent = true;
-        }
-        st.threads.iter().position(|t| !t.exited && t.pending == Some(Op::EnvWait(act.id)))
-    }
-    fn check(&mut self, _st: &St, quiescent: bool) -> Option<(String, String)> {
-        let o = self.obs.lock().unwrap();
-        if o.in_service > self.max {
-            return Some((
-                format!("C14/bound/initial={},max={}", self.initial, self.max),
-                format!("{} connections in service at once with max_workers={} (initial={})", o.in_service, self.max, self.initial),
-            ));
-        }
-        if quiescent && !self.shutdown_sent {
-            let waiting = o.submitted - o.started.len();
-            if waiting > 0 && o.in_service < self.max {
-                return Some((
-                    format!("C14/strand/initial={},max={}", self.initial, self.max),
-                    format!("quiescent with {} accepted connection(s) not being served although only {} of max {} are in service (initial={}, submitted={})", waiting, o.in_service, self.max, self.initial, o.submitted),
-                ));
-            }
-        }
-        None
-    }
-    fn final_check(&mut self, st: &St, horizon: bool) -> Option<(String, String)> {
-        let o = self.obs.lock().unwrap();
-        if horizon {
-            return Some(("C14/horizon".into(), "execution did not finish within the step horizon".into()));
-        }
-        if self.crash.is_some() {
-            // a panicking handler is outside the property's quantifier; only the bound and the no-stranding
-            // invariant are judged in these scenarios (the pool's shutdown unwraps the dead worker's join result)
-            return None;
-        }
-        let mut s = o.started.clone();
-        s.sort();
-        let mut f = o.finished.clone();
-        f.sort();
-        let want: Vec<usize> = (0..self.nconn).collect();
-        if !o.shutdown_done || s != want || f != want {
-            let desc: Vec<String> = st.threads.iter().map(|t| format!("{}:{:?}{}", t.name, t.pending.as_ref().map(|o| o.label()), if t.exited { "(exited)" } else { "" })).collect();
-            return Some((
-                format!("C14/termination/initial={},max={}", self.initial, self.max),
-                format!("nothing enabled but shutdown_done={} started={:?} finished={:?}; threads {:?}; queue {:?}", o.shutdown_done, o.started, o.finished, desc, st.queue),
-            ));
-        }
-        None
-    }
-    fn on_watchdog(&self, desc: &str) -> Option<(String, String)> {
-        Some((
-            format!("C14/strand/blocked/initial={},max={}", self.initial, self.max),
-            format!("a pool thread is blocked in something other than the job queue or its job (it never reached its next program point): {}", desc),
-        ))
-    }
-    fn abstract_state(&self, st: &St) -> String {
-        let o = self.obs.lock().unwrap();
-        let mut workers: Vec<String> = vec![];
-        let mut others: Vec<String> = vec![];
-        for t in &st.threads {
-            let d = format!("{}{:?}{}", t.pending.as_ref().map(|o| o.label()).unwrap_or_default(), t.holding, t.exited);
-            if t.is_worker {
-                workers.push(d)
-            } else {
-                others.push(d)
-            }
-        }
-        workers.sort();
-        let mut started = o.started.clone();
-        started.sort();
-        let mut fin = o.finished.clone();
-        fin.sort();
-        format!("{:?}|{:?}|{:?}|{}|{:?}|{:?}|{}", others, workers, st.queue, o.in_service, started, fin, self.shutdown_sent)
-    }
-    fn outcome(&self, _st: &St) -> String {
-        let o = self.obs.lock().unwrap();
-        format!("max_in_service={} started={:?} finished={:?}", o.max_in_service, o.started, o.finished)
-    }
-}
-
-fn build14(initial: usize, max: usize, nconn: usize) -> impl Fn(&Sched) -> Scenario {
-    build14c(initial, max, nconn, None)
-}
-
-fn build14c(initial: usize, max: usize, nconn: usize, crash: Option<usize>) -> impl Fn(&Sched) -> Scenario {
-    move |s: &Sched| {
-        let obs = Arc::new(Mutex::new(Obs14::default()));
-        let o2 = obs.clone();
-        let root = s.spawn("acceptor", true, move || {
-            // (a worker killed by a panicking handler makes the pool's shutdown panic: contained here)
-            let o2b = o2.clone();
-            let _ = std::panic::catch_unwind(std::panic::AssertUnwindSafe(move || {
-            let o2 = o2b;
-            let mut pool = varlink::VerifPool::new(initial, max);
-            for i in 0..nconn {
-                env_wait(ARRIVE + i);
-                let o3 = o2.clone();
-                pool.execute(move || {
-                    {
-                        let mut o = o3.lock().unwrap();
-                        o.in_service += 1;
-                        o.max_in_service = o.max_in_service.max(o.in_service);
-                        o.started.push(i);
-                    }
-                    env_wait(FINISH + i);
-                    {
-                        let mut o = o3.lock().unwrap();
-                        o.in_service -= 1;
-                        o.finished.push(i);
-                    }
-                    if crash == Some(i) && vh::vsched::current().map(|s| !s.lock().free_run).unwrap_or(false) {
-                        panic!("handler of connection {} panics", i);
-                    }
-                });
-                o2.lock().unwrap().submitted += 1;
-            }
-            env_wait(SHUTDOWN);
-            drop(pool);
-            o2.lock().unwrap().shutdown_done = true;
-            }));
-        });
-        Scenario { world: Box::new(World14 { initial, max, nconn, crash, obs, shutdown_sent: false }), roots: vec![root] }
-    }
-}
+include!("../c14_world.inc");
 
 fn fail_exit(f: Fail) -> ! {
     eprintln!("MACHINERY: {:?}", f);
